@@ -7,6 +7,7 @@ package nebula
 
 import (
 	"fmt"
+	"net/netip"
 	"testing"
 	"time"
 
@@ -54,6 +55,13 @@ func TestC16_VerdictsMatchReference(t *testing.T) {
 		peer := fwrGenPeer(rt, n, 0, true)
 		incoming := rapid.Bool().Draw(rt, "incoming")
 		rules := c16GenRules(rt, incoming)
+		var target *firewall.Packet
+		if rapid.IntRange(0, 5).Draw(rt, "ladderMode") == 0 {
+			// nested remote (or local) prefixes around one target packet, all in one bucket
+			t0 := fwrGenPacket(rt, n, peer)
+			target = &t0
+			rules = c16Ladder(rt, t0, incoming)
+		}
 		fw, err := fwrNewFirewall(n, time.Minute, time.Minute, time.Minute, rules)
 		if err != nil {
 			rt.Fatalf("rule set refused: %v", err)
@@ -65,6 +73,13 @@ func TestC16_VerdictsMatchReference(t *testing.T) {
 			dir := incoming
 			if rapid.IntRange(0, 5).Draw(rt, "probeOtherDir") == 0 {
 				dir = !incoming
+			}
+			if target != nil && k < 2 {
+				p, dir = *target, incoming
+				if k == 1 { // same addresses, other port/protocol draws
+					q := fwrGenPacket(rt, n, peer)
+					p.LocalPort, p.RemotePort, p.Protocol, p.Fragment = q.LocalPort, q.RemotePort, q.Protocol, q.Fragment
+				}
 			}
 			allowed, deciding, near := c16CheckVerdict(rt, fw, rules, n, peer, h, p, dir)
 			nt := (allowed && len(rules) >= 2 && deciding > 0) || (!allowed && near != "")
@@ -101,6 +116,50 @@ func TestC16_VerdictsMatchReference(t *testing.T) {
 			}
 		}
 	})
+}
+
+// c16Ladder: 2-4 rules in one proto/port/CA bucket whose remote cidr (and local_cidr) are nested
+// prefixes of the target packet's addresses or unrelated prefixes.
+func c16Ladder(rt *rapid.T, t0 firewall.Packet, incoming bool) []fwrRule {
+	base := fwrGenRule(rt, incoming)
+	base.Groups, base.Host = nil, ""
+	if rapid.Bool().Draw(rt, "ladderAnyPort") {
+		base.Start, base.End = 0, 0
+	}
+	if rapid.Bool().Draw(rt, "ladderAnyProto") {
+		base.Proto = firewall.ProtoAny
+	}
+	if rapid.IntRange(0, 2).Draw(rt, "ladderKeepCA") != 0 {
+		base.CAName, base.CASha = "", ""
+	}
+	around := func(a netip.Addr, label string) string {
+		bits := []int{0, 8, 16, 24, 30, 31, 32}
+		if a.Is6() {
+			bits = []int{0, 16, 48, 64, 126, 127, 128}
+		}
+		switch rapid.IntRange(0, 7).Draw(rt, label+"Kind") {
+		case 0:
+			return ""
+		case 1:
+			return "any"
+		case 2:
+			return rapid.SampledFrom(fwrRuleLocals).Draw(rt, label+"Other")
+		}
+		pf, _ := a.Prefix(rapid.SampledFrom(bits).Draw(rt, label+"Bits"))
+		return pf.String()
+	}
+	n := rapid.IntRange(2, 4).Draw(rt, "ladderLen")
+	rules := make([]fwrRule, n)
+	for i := range rules {
+		r := base
+		r.CIDR = around(t0.RemoteAddr, "ladderCIDR")
+		r.LocalCIDR = around(t0.LocalAddr, "ladderLocal")
+		if rapid.IntRange(0, 3).Draw(rt, "ladderGroup") == 0 {
+			r.Groups = []string{rapid.SampledFrom(fwrGroups).Draw(rt, "ladderG")}
+		}
+		rules[i] = r
+	}
+	return rules
 }
 
 func c16LocalIsOverlay(n fwrNode, p firewall.Packet) bool {
